@@ -139,24 +139,25 @@ def make_settings(st, outdir):
     return s
 
 
-def run_real(sb_dir, case, variant='v0', cwd_mode=None, loc='loc', keep_inputs=False):
+def run_real(sb_dir, case, variant='v0', cwd_mode=None, loc='+loc+', keep_inputs=False):
     """materialise the case under sb_dir/variant and run the real cminx.document; returns dict(files, stdout, status)"""
     # directory names of the harness must not be matchable by generated exclude patterns (patterns see absolute paths, K7):
-    # e.g. a variant called 'alone' is excluded by the pattern 'a*'
-    base = os.path.join(sb_dir, 'zq9_' + variant); os.makedirs(base, exist_ok=True)
+    # a variant called 'alone' is excluded by 'a*', a directory 'loc' by the suffix glob '*c' — so every harness directory
+    # starts and ends with '+', a character no generated name or pattern contains
+    base = os.path.join(sb_dir, '+zq9_' + variant + '+'); os.makedirs(base, exist_ok=True)
     inputs = case['inputs']; st = dict(case['settings'])
     results = dict(files={}, stdout='', status='ok', abs_inputs=[])
     old_cwd = os.getcwd()
     outmode = case.get('output', 'abs')
-    workdir = os.path.join(base, 'work'); os.makedirs(workdir, exist_ok=True)
-    decoy = os.path.join(base, 'decoy'); os.makedirs(decoy, exist_ok=True)
+    workdir = os.path.join(base, '+work+'); os.makedirs(workdir, exist_ok=True)
+    decoy = os.path.join(base, '+decoy+'); os.makedirs(decoy, exist_ok=True)
     with open(os.path.join(decoy, 'keep.txt'), 'w') as f: f.write('decoy')
     abs_inputs = []
     for k, inp in enumerate(inputs):
-        parent = os.path.join(base, loc, 'i%d' % k)
+        parent = os.path.join(base, loc, '+i%d+' % k)
         p = os.path.join(parent, inp['name'])
         if keep_inputs and os.path.exists(p): pass       # second run over the very same files (mtimes untouched)
-        elif inp['kind'] == 'dir': materialize(p, inp['children'], os.path.join(base, 'vendor_q7'))
+        elif inp['kind'] == 'dir': materialize(p, inp['children'], os.path.join(base, '+vendor_q7+'))
         elif inp['kind'] == 'file':
             os.makedirs(parent, exist_ok=True)
             with open(p, 'wb') as f: f.write(inp['content'].encode('utf-8'))
